@@ -161,3 +161,51 @@ def userinfo_pair(txt):
         st.tuples(txt, st.just("")),
         st.tuples(st.none(), txt),
     )
+
+
+# ---------------------------------------------------------------------------
+# URL strings composed by the RFC grammar with arbitrary text in the components
+
+def _strip(chars):
+    tbl = {ord(c): None for c in chars}
+    return lambda s: s.translate(tbl)
+
+
+@st.composite
+def url_string(draw, txt=None, schemes=None, hosts=None, rel=True):
+    """scheme://userinfo@host:port/path?query#fragment with arbitrary component text.
+    Delimiters that would end the component early are removed by construction."""
+    if txt is None:
+        txt = text(max_tokens=6)
+    sch = draw(schemes if schemes is not None else scheme())
+    shape = draw(st.sampled_from(["auth", "auth", "auth", "auth", "noauth"] if rel else ["auth"]))
+    s = sch + ":" if sch else ""
+    if shape == "auth":
+        s += "//"
+        user, pw = draw(userinfo_pair(txt.map(_strip("/?#@[]\\"))))
+        if user is not None or pw is not None:
+            s += (user or "")
+            if pw is not None:
+                s += ":" + pw
+            s += "@"
+        s += draw(hosts if hosts is not None else host_text())
+        p = draw(port())
+        if p is not None:
+            s += ":%d" % p
+        path = draw(st.one_of(st.just(""), st.just("/"), st.lists(txt.map(_strip("?#")), max_size=4).map(lambda xs: "".join("/" + x for x in xs))))
+    else:
+        path = draw(st.lists(txt.map(_strip("?#")), max_size=4).map("/".join))
+        if draw(st.booleans()):
+            path = "/" + path.lstrip("/")
+    s += path
+    if draw(st.booleans()):
+        s += "?" + draw(st.one_of(txt.map(_strip("#")), query_text(txt)))
+    if draw(st.booleans()):
+        s += "#" + draw(txt)
+    return s
+
+
+def query_text(txt):
+    part = txt.map(_strip("#&="))
+    pair = st.one_of(st.tuples(part, part).map("=".join), part)
+    return st.lists(pair, max_size=4).map("&".join)
